@@ -743,7 +743,12 @@ def file_level(rep, rng, tier, trig, replay=None):
         cases = [replay["case"]]
     else:
         cases = gen_file_cases(rng, tier)
-    wl = ["SIMW %s %s %s %s %s %s" % (c["mode"], gen.proto_tok(c["proto"]), gen.points_tok(c["points"]) or "-", c["pose"], c["il"], c["cl"]) for c in cases]
+    # the writer refuses incomplete limits (one bound missing): such limits are written as the default
+    # and planted in the descriptor afterwards, as a foreign file may carry them
+    def incomplete(tok):
+        return tok not in ("~", "-") and "-" in tok.split(",")
+    wl = ["SIMW %s %s %s %s %s %s" % (c["mode"], gen.proto_tok(c["proto"]), gen.points_tok(c["points"]) or "-", c["pose"],
+                                      "~" if incomplete(c["il"]) else c["il"], "~" if incomplete(c["cl"]) else c["cl"]) for c in cases]
     if replay and replay.get("file_hex"):
         # the recorded file and descriptor, not a new run of the writer
         wo = ["w=o dev=%s desc=%s" % (replay["file_hex"], replay["descriptor"])]
@@ -771,6 +776,10 @@ def file_level(rep, rng, tier, trig, replay=None):
         il_tok = f["desc"].split(";il=")[1].split(";")[0]
         cl_tok = f["desc"].split(";cl=")[1].split(";")[0]
         pose_tok = f["desc"].split(";pose=")[1]
+        if incomplete(c["il"]):
+            il_tok = c["il"]
+        if incomplete(c["cl"]):
+            cl_tok = c["cl"]
         rec, what = d["rec"], c["tamper"]
         if c.get("retamper") is not None:
             rec, il_tok, cl_tok, pose_tok, w2 = retamper_desc(c["retamper"], dict(il_tok=il_tok, cl_tok=cl_tok, rec=d["rec"], pose_tok=pose_tok))
